@@ -62,7 +62,32 @@ func collectConsts(ts []*Term, prefix string) []*Term {
 
 func (x *Exec) buildVC(o *Obligation) *VC {
 	vc := &VC{Name: o.Name}
-	vc.Asserts = append(vc.Asserts, o.Facts...)
+	// relevance: a fact guarded by a path condition that the obligation's own path condition
+	// contradicts syntactically can never fire; dropping it is sound and keeps VCs small.
+	seenFact := map[*Term]bool{}
+	pcSet := map[*Term]bool{}
+	for _, c := range conjuncts(o.PC) {
+		pcSet[c] = true
+	}
+	for _, f := range o.Facts {
+		if f.kind == kApp && f.Op == "=>" {
+			dead := false
+			for _, g := range conjuncts(f.Args[0]) {
+				if pcSet[Not(g)] {
+					dead = true
+					break
+				}
+			}
+			if dead {
+				continue
+			}
+		}
+		if seenFact[f] {
+			continue
+		}
+		seenFact[f] = true
+		vc.Asserts = append(vc.Asserts, f)
+	}
 	vc.Asserts = append(vc.Asserts, x.axiomTerms()...)
 	vc.Asserts = append(vc.Asserts, o.PC)
 	vc.Goal = o.Goal
@@ -80,6 +105,9 @@ func (x *Exec) buildVC(o *Obligation) *VC {
 		vc.Asserts = append(vc.Asserts, App("distinct", "Bool", globs...))
 	}
 	vc.Asserts = append(vc.Asserts, ifaceFacts()...)
+	if _, ok := symTab["ix"]; ok {
+		vc.Asserts = append(vc.Asserts, ixAxiom())
+	}
 	return vc
 }
 
